@@ -15,6 +15,14 @@
             ("{% macro m() %}{{ 1 // 0 }}{% endmacro %}{{ m() }}", None), ("{% include 'missing.html' %}", None),
             ("{% extends 'missing.html' %}", None), ("{% block b %}{{ {}.a.b }}{% endblock %}", None),
             ("{{ range(1, 2, 0) }}", None), ("{% for x in [1] %}{{ loop.cycle() // 0 }}{% endfor %}", None),
+            // every special-cased call form and statement that can fail at run time on its own instruction
+            ("{{ self.nope() }}", None), ("{{ super() }}", None), ("{{ caller() }}", None), ("{{ loop([]) }}", None),
+            ("{% import 'missing.html' as m %}", None), ("{% from 'missing.html' import a %}", None), ("{% call nomacro() %}{% endcall %}", None),
+            ("{% for a, b in [1] %}{% endfor %}", None), ("{% macro m(a) %}{% endmacro %}{{ m(1, 2) }}", None), ("{{ [1, 2][::0] }}", None),
+            ("{% block req required %}{% endblock %}", None), ("{% do nofunc() %}", None), ("{% filter nofilter %}x{% endfilter %}", None),
+            ("{% autoescape 'nomode' %}{{ x }}{% endautoescape %}", None), ("{{ 2 ** 200 }}", None), ("{{ -(-170141183460469231731687303715884105727 - 1) }}", None),
+            ("{% set q = 1 // 0 %}", None), ("{% with q = 1 // 0 %}{% endwith %}", None), ("{% if 1 // 0 %}{% endif %}", None), ("{{ x.nope.nope }}", None),
+            ("{% set c %}{{ 1 // 0 }}{% endset %}", None), ("{{ [1]|map('nofilter')|list }}", None), ("{{ dict(a=1)|items|first|first|first|nofilter }}", None),
         ];
         fn check_error(e: &crate::Error, src: &str, name: &str) {
             assert!(e.name() == Some(name), "error without template name: {e:?}");
@@ -51,7 +59,7 @@
             check_error(&base, construct, "t.txt");
             for pad in ["", "é ", "\t\t"] {
                 for &n in &[0usize, 1, 2, 7, 300] {
-                    for filler in ["\n", "text é line\n"] {
+                    for filler in ["\n", "text é line\n", "{{ 1 }}\n", "{% if true %}y{% endif %} {{ x }}\n"] {
                         let prefix: String = filler.repeat(n);
                         let src = format!("{prefix}{pad}{construct}");
                         let e = render_err(&src);
